@@ -17,6 +17,7 @@ META = {
 }
 
 ASSUMPTIONS = [
+    'parallel_invoke only accepts a ConcurrentTaskSet& (TaskSet cannot be passed); both TaskCost kinds are driven',
     'a packaged task queued to a pool with threads runs exactly once before tasks.wait() returns (pool/task-set contract, C01/C02); the task set is '
     'not cancelled (packageTask skips the functor of a cancelled set) and functors do not throw',
     'queued functors run at inline depth 0 (pool threads and the waiter do not execute them from inside another inline run); the harness does not '
@@ -28,13 +29,13 @@ IMPORTS = 'From DV Require Import Base.Corr Model.InvokeModel Model.C16Check.'
 
 
 def tree_term(shape):
-    if shape[0] in 'LR':
-        return '(comb_%s %d)' % ('l' if shape[0] == 'L' else 'r', int(shape[1:]))
+    if shape[0] in 'LRZ':
+        return '(comb_%s %d)' % ({'L': 'l', 'R': 'r', 'Z': 'z'}[shape[0]], int(shape[1:]))
     return '(regular [%s])' % '; '.join('%s%%nat' % a for a in shape.split(','))
 
 
 def shape_size(shape):
-    if shape[0] in 'LR':
+    if shape[0] in 'LRZ':
         return 2 * int(shape[1:]) + 1
     n, lvl = 1, 1
     for a in shape.split(','):
@@ -46,7 +47,7 @@ def shape_size(shape):
 def parse_pi(line):
     if line is None or not line.startswith('pi '):
         return None
-    t = [int(x) for x in line.split()[1:]]
+    t = [int(x) for x in line.split('|')[0].split()[1:]]
     n = t[0]
     v = t[1:]
     if len(v) != 8 * n:
@@ -63,9 +64,24 @@ def run(ctx):
     r = ctx.rng
     cases = []
 
-    def add(sh, pools):
+    def add(sh, pools, costs=None, ov=(0,)):
         for N in pools:
-            cases.append({'N': N, 'cost': 'heavy' if (len(cases) % 3) else 'light', 'shape': sh})
+            for cost in (costs or ('heavy' if (len(cases) % 3) else 'light',)):
+                for o in ov:
+                    cases.append({'N': N, 'cost': cost, 'shape': sh, 'ov': o})
+    # deterministic probe family around the inline-depth cap (kMaxInlineDepth = 32): recursion through a SCHEDULED functor
+    # (left comb), through the last functor (right comb) and alternating (zigzag: inline depth = levels / 2), both TaskCost
+    # kinds, overloaded set (blockers parked on a latch; a zero-thread pool is overloaded by nesting alone) and not
+    both = ('light', 'heavy')
+    for d in (30, 31, 32, 33, 34):
+        add('L%d' % d, (0, 2), both, (0, 1))
+        add('R%d' % d, (2,), both, (1,))
+    add('L33', (1, 4), both, (1,))
+    add('L64', (0, 1, 3), both, (1,))
+    for d in (62, 64, 66, 68):
+        add('Z%d' % d, (0, 2), both, (1,))
+    for sh in ('2,2,2,2,2', '3,3,3', '8,2'):                                   # balanced, overloaded
+        add(sh, (1, 2, 4), both, (1,))
     for a in range(1, 9):                                                      # all arities, flat
         add(str(a), (0, 1, 4))
     mixed = ['2,2', '3,2', '2,8', '8,2', '3,3,3', '2,2,2,2', '5,1,3', '1,1,1,4', '2,2,2,2,2,2', '4,4,4']
@@ -78,13 +94,13 @@ def run(ctx):
         sh = ','.join(str(r.choice([1, 2, 2, 3, 4, 8])) for _ in range(depth))
         while shape_size(sh) > 300:
             sh = ','.join(sh.split(',')[:-1])
-        cases.append({'N': r.choice([0, 1, 1, 2, 3, 4]), 'cost': r.choice(['heavy', 'light']), 'shape': sh})
+        cases.append({'N': r.choice([0, 1, 1, 2, 3, 4]), 'cost': r.choice(['heavy', 'light']), 'shape': sh, 'ov': r.choice([0, 0, 1])})
     if ctx.quick:
         add('2,2,2,2,2,2,2,2,2,2', (1, 4))                                     # 1024 leaves
     else:
         for sh in ('2,2,2,2,2,2,2,2,2,2,2,2,2,2', '4,4,4,4,4,4', '8,8,8,8', 'R3000', 'L3000'):
             add(sh, (0, 1, 4))
-    lines = ['pi %d %s %s' % (c['N'], c['cost'], c['shape']) for c in cases]
+    lines = ['pi %d %s %s %d' % (c['N'], c['cost'], c['shape'], c['ov']) for c in cases]
     outs = plan_common.run_lines(exe, lines)
     ctx.phase('run')
     full, light = [], []
@@ -101,11 +117,11 @@ def run(ctx):
                 dec_hist[k] += 1
             maxdepth = max(maxdepth, nd['depth'])
         if len(nodes) <= 420:
-            obs = dv.coq_list(['(O16 %s %s %d %d %d)' % (dv.coq_list(['%d%%nat' % x for x in nd['path']]), dv.zlit(nd['dec']), nd['depth'], nd['cnt'],
-                                                         nd['lastok']) for nd in nodes])
+            obs = dv.coq_list(['(O16 %s %s %s %d %d)' % (dv.coq_list(['%d%%nat' % x for x in nd['path']]), dv.zlit(nd['dec']), dv.zlit(nd['depth']),
+                                                         nd['cnt'], nd['lastok']) for nd in nodes])      # a functor that never ran has dec = depth = -1
             full.append((c, line, nodes, '(%s, %s, %s)' % ('true' if c['N'] == 0 else 'false', tree_term(c['shape']), obs)))
         else:
-            obs = dv.coq_list(['(%d,%d,%d)' % (nd['cnt'], nd['lastok'], nd['depth']) for nd in nodes])
+            obs = dv.coq_list(['(%d,%d,%s)' % (nd['cnt'], nd['lastok'], dv.zlit(nd['depth'])) for nd in nodes])
             light.append((c, line, nodes, '(%s, %s)' % (tree_term(c['shape']), obs)))
     res = plan_common.judge(ctx, 'c16', IMPORTS, [('judge_pi', [x[3] for x in full]), ('judge_pi_light', [x[3] for x in light])])
     if res is None:
@@ -131,12 +147,15 @@ def run(ctx):
                           'inline depth above kMaxInlineDepth: "%s": %s' % (line, badn), {'case': c, 'cmd': line, 'harness': 'h_loops', 'nodes': badn})
     ctx.cov['rule'] = ('programs = trees of functors: flat arities 1..8, mixed-arity trees up to 6 levels, left combs (recursion through a scheduled functor, '
                        'exercises the inline-depth cap at 32 on a zero-thread pool) and right combs (recursion through the last functor, depth 300), '
-                       'binary/4-ary trees with >= 1000 leaves, pools of 0,1,2,4 threads, both TaskCost variants.  Non-trivial = at least 3 functors; '
-                       'distinct = distinct (pool, cost, shape)')
+                       'binary/4-ary trees with >= 1000 leaves, pools of 0..4 threads, both TaskCost kinds (kHeavy, kLightweight), with and without forced '
+                       'overload (4N+2 blocker tasks parked on a latch while the tree is submitted); deterministic probe family: left/right/zigzag combs of '
+                       'depth 30..34 (zigzag 62..68), 64 x {overloaded, not} x {kLightweight, kHeavy}.  Non-trivial = at least 3 functors; '
+                       'distinct = distinct (pool, cost, shape, overload)')
     ctx.cov['evaluations'] += len(full) + len(light)
     ctx.cov['distinct_nontrivial'] += len(distinct)
     ctx.cov['verdict_histogram'] = hist
     ctx.cov['decisions_observed'] = dec_hist
+    ctx.cov['cases_by_cost_and_overload'] = {'%s/%s' % (k, o): sum(1 for c in cases if c['cost'] == k and c['ov'] == o) for k in ('heavy', 'light') for o in (0, 1)}
     ctx.cov['max_inline_depth_observed'] = maxdepth
     ctx.cov['functor_runs_checked'] = sum(len(x[2]) for x in full + light)
     ctx.cov['traces_validated_against_impl'] += hist['agree_and_property_holds']
